@@ -209,6 +209,8 @@ pub fn gen_config(g: &mut Gen, proto: Proto, cipher: &str, transport: Transport,
             (p.clone(), p)
         }
     };
+    // a Shadowsocks server serves QUIC in the modes "quic" and "tcp_and_quic" (VMess and Trojan whenever a quic section exists)
+    let server_mode = if transport == Transport::Quic && proto == Proto::Shadowsocks { *g.pick(&["quic", "tcp_and_quic"]) } else { "tcp" };
     Config {
         proto,
         cipher: cipher.to_owned(),
@@ -217,7 +219,7 @@ pub fn gen_config(g: &mut Gen, proto: Proto, cipher: &str, transport: Transport,
         client_password,
         users,
         client_mode: "tcp".to_owned(),
-        server_mode: "tcp".to_owned(),
+        server_mode: server_mode.to_owned(),
     }
 }
 
@@ -242,11 +244,18 @@ pub struct KnobsPlan {
     pub write_style: u8,
     pub sndbuf: usize,
     pub pending_pm: u32,
+    /// QUIC cells: per-mille loss / duplication / reordering of the datagrams between client and server (quinn recovers)
+    #[serde(default)]
+    pub dgram_loss_pm: u32,
+    #[serde(default)]
+    pub dgram_dup_pm: u32,
+    #[serde(default)]
+    pub dgram_reorder_pm: u32,
 }
 
 impl KnobsPlan {
     pub fn simple() -> Self {
-        KnobsPlan { latency_us: 0, jitter_us: 0, read_style: 0, write_style: 0, sndbuf: 256 * 1024, pending_pm: 0 }
+        KnobsPlan { latency_us: 0, jitter_us: 0, read_style: 0, write_style: 0, sndbuf: 256 * 1024, pending_pm: 0, dgram_loss_pm: 0, dgram_dup_pm: 0, dgram_reorder_pm: 0 }
     }
 
     pub fn generate(g: &mut Gen) -> Self {
@@ -261,7 +270,20 @@ impl KnobsPlan {
             // a byte-sized window with a long round trip is not a fault, just a run that never ends
             sndbuf: if latency_us > 0 { *g.pick(&[16 * 1024, 256 * 1024]) } else { *g.pick(&[1, 7, 64, 1024, 16 * 1024, 256 * 1024, 256 * 1024]) },
             pending_pm: *g.pick(&[0, 0, 50, 300]),
+            dgram_loss_pm: 0,
+            dgram_dup_pm: 0,
+            dgram_reorder_pm: 0,
         }
+    }
+
+    /// faults on the datagram link under QUIC, drawn for about half of the QUIC runs
+    pub fn with_dgram_faults(mut self, g: &mut Gen, t: Transport) -> Self {
+        if t == Transport::Quic && g.chance(50) {
+            self.dgram_loss_pm = *g.pick(&[0, 10, 50, 150]);
+            self.dgram_dup_pm = *g.pick(&[0, 0, 50, 300]);
+            self.dgram_reorder_pm = *g.pick(&[0, 0, 100, 500]);
+        }
+        self
     }
 
     /// tokio-rustls + tokio-websockets handshakes assume a send buffer that holds a few hundred bytes (see
@@ -281,6 +303,11 @@ impl KnobsPlan {
             write_style: self.write_style,
             sndbuf: self.sndbuf,
             pending_pm: self.pending_pm,
+            udp_loss_pm: self.dgram_loss_pm,
+            udp_dup_pm: self.dgram_dup_pm,
+            udp_reorder_pm: self.dgram_reorder_pm,
+            udp_reorder_max_ns: 20_000_000,
+            udp_fault_ports: if self.dgram_loss_pm + self.dgram_dup_pm + self.dgram_reorder_pm > 0 { vec![SERVER_PORT] } else { Vec::new() },
             ..Default::default()
         }
     }
